@@ -169,8 +169,13 @@ class Memtable(Entity):
         """Check if a key is in the memtable (no I/O cost)."""
         return key in self._data
 
-    def flush(self) -> SSTable:
+    def flush(self, *, clear: bool = True) -> SSTable:
         """Freeze contents into an SSTable and clear the memtable.
+
+        Args:
+            clear: If False the entries are kept, so the memtable can keep
+                serving reads until the caller has installed the SSTable
+                (the caller then empties it).
 
         Returns the new SSTable containing all current entries.
         """
@@ -178,7 +183,8 @@ class Memtable(Entity):
         sstable = SSTable(data, level=0, sequence=self._sequence)
         self._sequence += 1
         self._total_flushes += 1
-        self._data.clear()
+        if clear:
+            self._data.clear()
         logger.debug(
             "[%s] Flushed %d entries to SSTable(seq=%d)",
             self.name,
